@@ -6,6 +6,7 @@ import (
 	"fmt"
 	"github.com/go-faster/jx"
 	custom_errors "github.com/metrico/qryn/writer/utils/errors"
+	"math"
 
 	"strconv"
 )
@@ -227,6 +228,8 @@ type zipkinNDDecoderV2 struct {
 
 func (z *zipkinNDDecoderV2) Decode() error {
 	scanner := bufio.NewScanner(z.ctx.bodyReader)
+	// a span may well be longer than bufio.MaxScanTokenSize (64 KiB); the array framing has no limit either
+	scanner.Buffer(nil, math.MaxInt)
 	scanner.Split(bufio.ScanLines)
 	for scanner.Scan() {
 		z.reset()
@@ -236,6 +239,9 @@ func (z *zipkinNDDecoderV2) Decode() error {
 		if err != nil {
 			return custom_errors.NewUnmarshalError(err)
 		}
+	}
+	if err := scanner.Err(); err != nil {
+		return custom_errors.NewUnmarshalError(err)
 	}
 	return nil
 }
